@@ -42,6 +42,10 @@ WHAT = {"term-at-zombie": "SIGTERM arrived after the step's main process had exi
         "term-wait-ignore": "SIGTERM arrived while the step ran (main process ignores it)"}
 
 
+def default_survivors_of(survivors, mem):
+    return [i for i in survivors if not mem[i][2]]
+
+
 def run_case(exe, proc, shim, root, case):
     ev, mem, inherit, offset = case["ev"], case["mem"], case["inherit"], case["offset"]
     shutil.rmtree(root, ignore_errors=True)
@@ -72,9 +76,21 @@ def run_case(exe, proc, shim, root, case):
 
     t0 = time.time()
     errf = open(os.path.join(root, "stderr"), "wb")
-    p = subprocess.Popen(argv, env=env, stdout=subprocess.DEVNULL, stderr=errf, preexec_fn=pre)
+    if case.get("nostderr"):
+        # the runner's output goes to a pipe (as under `| tee log`) whose reader is gone by the time the
+        # request arrives; SIGPIPE at its default
+        rfd, wfd = os.pipe()
+
+        def pre2():
+            pre()
+            signal.signal(signal.SIGPIPE, signal.SIG_DFL)
+        p = subprocess.Popen(argv, env=env, stdout=wfd, stderr=wfd, preexec_fn=pre2)
+        os.close(wfd)
+        os.close(rfd)
+    else:
+        p = subprocess.Popen(argv, env=env, stdout=subprocess.DEVNULL, stderr=errf, preexec_fn=pre)
     sent_at = None
-    if ev in ("term-wait", "term-wait-ignore"):
+    if ev in ("term-wait", "term-wait-ignore", "term-wait-nostderr"):
         while not os.path.exists(os.path.join(root, "pids")) and time.time() - t0 < 5:
             time.sleep(0.01)
         time.sleep(offset)
@@ -129,11 +145,14 @@ def run(ctx):
     distinct = set()
     reqs, wants, infos = [], [], []
     plan = [("none", 0), ("term-wait", 0), ("term-at-waitpid", 0), ("term-at-fork", 0), ("timeout", 0), ("term-wait-ignore", 0), ("term-wait", 1), ("timeout", 1),
-            ("none", 1), ("term-wait", 0), ("term-at-waitpid", 1), ("term-wait-ignore", 1), ("term-at-zombie", 0), ("term-at-handshake", 0)]
-    n = ctx.n(14, 112)
+            ("none", 1), ("term-wait", 0), ("term-at-waitpid", 1), ("term-wait-ignore", 1), ("term-at-zombie", 0), ("term-at-handshake", 0),
+            ("term-wait-nostderr", 0), ("timeout-nostderr", 0)]
+    n = ctx.n(16, 128)
     cases = []
     for t in range(n):
         ev, inherit = plan[t % len(plan)]
+        nostderr = ev.endswith("-nostderr")
+        ev = ev[:-len("-nostderr")] if nostderr else ev
         main_ignore = ev == "term-wait-ignore"
         main_life = 400 if ev == "none" else 300 if ev == "term-at-zombie" else (9000 if main_ignore else 3000)
         main_code = rng.choice([0, 0, 3, 7])
@@ -142,15 +161,30 @@ def run(ctx):
             # the main process is gone when the request arrives; a member with the default disposition is not
             mem_.append((len(mem_), 0, 0, 9000, 0, 0))
         cases.append(dict(ev=ev, inherit=inherit, main_ignore=main_ignore, main_life=main_life, main_code=main_code, offset=rng.choice([0.05, 0.2, 0.45]),
-                          mem=mem_))
+                          mem=mem_, nostderr=nostderr))
     from concurrent.futures import ThreadPoolExecutor
     with ThreadPoolExecutor(max_workers=6) as ex:
         results = list(ex.map(lambda ic: run_case(exe, proc, shim, os.path.join(ctx.scratch, "c07-%d" % ic[0]), ic[1]), enumerate(cases)))
     for case, res in zip(cases, results):
         ev, mem, main_code, main_ignore = case["ev"], case["mem"], case["main_code"], case["main_ignore"]
         rc, acts, done, survivors = res["rc"], res["acts"], res["main_done"], res["survivors"]
-        info = dict(event=ev, invoker_ignores_signals=bool(case["inherit"]), members=mem, **res)
-        kinds[ev + ("+inherited-ignore" if case["inherit"] else "")] = kinds.get(ev + ("+inherited-ignore" if case["inherit"] else ""), 0) + 1
+        info = dict(event=ev, invoker_ignores_signals=bool(case["inherit"]), runner_output_to_a_pipe_nobody_reads=bool(case["nostderr"]), members=mem, **res)
+        kl = ev + ("+inherited-ignore" if case["inherit"] else "") + ("+output-pipe-without-reader" if case["nostderr"] else "")
+        kinds[kl] = kinds.get(kl, 0) + 1
+        if case["nostderr"]:
+            # the diagnostics are lost with the pipe: what was sent is not observable, the rest of the property is
+            what = WHAT[ev] + " (the runner's output goes to a pipe whose reader is gone)"
+            if rc is None or rc <= 0:
+                ctx.violation("%s: the runner %s" % (what, "exited 0" if rc == 0 else "died of signal %s" % (-rc if rc else rc)), info)
+            elif rc == 128 + 13:
+                ctx.violation("%s: the runner exited 141 (SIGPIPE)" % what, info)
+            elif ev == "timeout" and rc != 124:
+                ctx.violation("%s: exit %d, expected 124" % (what, rc), info)
+            if res["main_alive"]:
+                ctx.violation("%s: the runner exited before the step's main process was gone" % what, info)
+            if default_survivors_of(survivors, mem):
+                ctx.violation("%s: members %s of the step (default SIGTERM disposition) outlived the runner" % (what, default_survivors_of(survivors, mem)), info)
+            continue
         distinct.add((ev, case["inherit"], len(mem), tuple(m[2] for m in mem), main_code))
         default_survivors = [i for i in survivors if not mem[i][2]]
         # ---- the property on the real processes
